@@ -197,6 +197,7 @@ fn trace_check(program: &Program, job: &Value) -> Value {
     // auxiliary segment for fixed pseudo-random challenges: boundary assertions of the aux columns
     let mut bad_aux = 0usize;
     let mut aux_checked = 0usize;
+    let mut bus_final: Option<String> = None;
     if job["aux"].as_bool().unwrap_or(false) {
         let mut trace = trace;
         let nrand = miden_air::trace::AUX_TRACE_RAND_ELEMENTS;
@@ -210,10 +211,14 @@ fn trace_check(program: &Program, job: &Value) -> Value {
                     bad_aux += 1;
                 }
             }
+            // chiplets bus (requests of the stack / decoder vs. responses of the chiplets): a running
+            // product that must be back at 1 on the last row before the random rows
+            let last = n - miden_processor::ExecutionTrace::NUM_RAND_ROWS - 1;
+            bus_final = Some(aux.get(miden_air::trace::CHIPLETS_AUX_TRACE_OFFSET, last).to_string());
         }
     }
     json!({"status":"ok","rows": rows, "trace_len": n, "nonzero": bad, "bad_assertions": bad_assert, "constraints": nmain,
-           "bad_aux_assertions": bad_aux, "aux_assertions": aux_checked})
+           "bad_aux_assertions": bad_aux, "aux_assertions": aux_checked, "bus_final": bus_final})
 }
 
 /// Executes a program whose root is one span made of the given operations and checks the decoder
